@@ -29,7 +29,7 @@ var capOffsets = []int{-1, 0, 1, -1, 0, 1, -8, 8, -100, 100, -2, 2}
 
 func c19Cfg(r *Rng, limit int) (line string, ext bool, thr int) {
 	ext = r.Chance(55)
-	thr = Pick(r, []int{1, 64, 200, 800, 1600, 4000})
+	thr = Pick(r, []int{1, rowsBufSize(8), rowsBufSize(25), rowsBufSize(100), rowsBufSize(200), rowsBufSize(500)}) // sizes some batch has exactly
 	zstd := ext && r.Chance(6) // the server builds a fresh zstd encoder per upload (~40 ms): keep it rare
 	return fmt.Sprintf("cfg cache=%d limit=%d ext=%d thr=%d zstd=%d", b2i(r.Chance(70)), limit, b2i(ext), thr, b2i(zstd)), ext, thr
 }
@@ -104,7 +104,8 @@ func c19GenUnary(g *Gen) {
 
 // sizedEmit draws an emit whose data batch has a controlled number of rows (8 bytes each).
 func sizedEmit(r *Rng, thr int, exchange bool) string {
-	rows := Pick(r, []int{0, 1, 3, thr/8 - 1, thr / 8, thr/8 + 1, thr / 4, 30, 120, 600})
+	at := rowsAtThr(thr) // the batch of `at` rows has a buffer size exactly equal to the threshold
+	rows := Pick(r, []int{0, 1, 3, at - 1, at, at + 1, 2 * at, 30, 120, 600})
 	if rows < 0 {
 		rows = 0
 	}
@@ -167,7 +168,7 @@ func c19GenExchange(g *Gen) {
 	for t := r.Range(1, 6); t > 0; t-- {
 		vals := genVals(r, 3)
 		if r.Chance(25) {
-			cnt := Pick(r, []int{thr/8 - 1, thr / 8, thr/8 + 1, 200})
+			cnt := Pick(r, []int{rowsAtThr(thr) - 1, rowsAtThr(thr), rowsAtThr(thr) + 1, 200})
 			if cnt < 1 {
 				cnt = 1
 			}
@@ -200,10 +201,28 @@ func c19GenProducer(g *Gen) {
 	r := g.Rng
 	limit := Pick(r, []int{0, 0, 1, 2, 3, 5})
 	cfg, ext, thr := c19Cfg(r, limit)
+	// stream header: the producer method registered with a header type, the init returning none / a
+	// small one / one larger than typical caps; it is written in front of the data stream on /init and
+	// counts against max_response_bytes like everything else in the body
+	hdrOn := r.Chance(45)
+	cfg += fmt.Sprintf(" hdr=%d", b2i(hdrOn))
+	hword := ""
+	if r.Chance(map[bool]int{true: 75, false: 8}[hdrOn]) {
+		hword = fmt.Sprintf(" H%d", Pick(r, []int{0, 0, 40, 300, 1000, 5000, 20000}))
+	}
 	lines := []string{cfg}
 	n := r.Range(1, 9)
 	ticks := make([]string, n)
+	atThr := ext && thr >= 8 && r.Chance(25) // every data batch exactly AT the externalize threshold
 	for i := range ticks {
+		if atThr {
+			t := fmt.Sprintf("e1:n%dx%d:", rowsAtThr(thr), r.Range(1, 9))
+			if r.Chance(25) {
+				t = fmt.Sprintf("l%d;", r.Intn(50)) + t
+			}
+			ticks[i] = t
+			continue
+		}
 		if r.Chance(88) {
 			t := sizedEmit(r, thr, false)
 			if r.Chance(40) {
@@ -224,7 +243,7 @@ func c19GenProducer(g *Gen) {
 	case 0, 1:
 		ticks = append(ticks, "f1")
 	case 2, 3, 4, 5:
-		big := Pick(r, []int{thr / 8, thr/8 + 1, thr / 4, 120, 600})
+		big := Pick(r, []int{rowsAtThr(thr), rowsAtThr(thr) + 1, 2 * rowsAtThr(thr), 120, 600})
 		if big < 1 {
 			big = 1
 		}
@@ -237,7 +256,7 @@ func c19GenProducer(g *Gen) {
 	}
 	prog := strings.Join(ticks, "/")
 	drainable := r.Chance(45) // external cap off everywhere: the drain theorem applies
-	if lastWithFinish && ext {
+	if (lastWithFinish && ext) || atThr {
 		drainable = r.Chance(15)
 	}
 	ecap := func(up int) string {
@@ -250,7 +269,11 @@ func c19GenProducer(g *Gen) {
 		}
 		return extCap(r, ext, up)
 	}
-	lines = append(lines, fmt.Sprintf("init 0 pr %s %s %s %s", Pick(r, []string{"absent", "ok"}), prog, wireCap(r, n), ecap(n)))
+	wc := wireCap(r, n)
+	if hword != "" && hdrOn && r.Chance(25) {
+		wc = fmt.Sprintf("w%d", Pick(r, []int{200, 500, 1000, 3000, 8000})) // absolute: below / around / above the header's size
+	}
+	lines = append(lines, fmt.Sprintf("init 0 pr %s %s%s %s %s", Pick(r, []string{"absent", "ok"}), prog, hword, wc, ecap(n)))
 	// continuation requests on whatever cursors exist (T0 exists iff the init turn stopped early)
 	for t := r.Range(0, 5); t > 0; t-- {
 		tok := fmt.Sprintf("T%d", r.Intn(t+1))
